@@ -794,6 +794,22 @@ fn scenario(
             if addr == 0 {
                 continue;
             }
+            // after this emission the callsite IS registered (the probe collector accepts every
+            // level, so the macro's level gate is open), and registering a callsite - like
+            // creating the probe's Dispatch - offers it to every live collector:
+            for (a, _) in live.iter() {
+                out.evals += 1;
+                out.count("offered_after_quiescence_checks", 1);
+                if !a.registered.lock().unwrap().contains(&addr) {
+                    drop(g);
+                    out.violation(
+                        "a registered callsite was never offered (register_callsite) to a live collector, not even when it was registered / a further Dispatch was created at quiescence",
+                        witness(json!({"collector": format!("c{} = {}", a.cid, a.spec().code()),
+                                       "callsite": format!("#{} {:?} {} {}", c.idx, c.kind, vcs::LEVEL_NAMES[c.level], vcs::TARGETS[c.target])})),
+                    );
+                    return Err(());
+                }
+            }
             if !offered_to_anybody.contains(&addr) {
                 out.count("callsites_not_registered_before_quiescence", 1);
                 continue;
